@@ -27,6 +27,7 @@ mod mon_c14;
 mod refdefs;
 mod mon_c15;
 mod mon_c19;
+mod mon_c20;
 
 use ctx::{Ctx, Tier};
 
@@ -127,6 +128,7 @@ fn main() {
         "C15" => mon_c15::run_c15(&mut ctx),
         "C16" => mon_c15::run_c16(&mut ctx),
         "C19" => mon_c19::run(&mut ctx),
+        "C20" => mon_c20::run(&mut ctx),
         _ => {
             eprintln!("unknown property {prop}");
             std::process::exit(2);
